@@ -251,7 +251,13 @@ func runScenario(s schedScenario) map[string]any {
 			<-started
 		case "await":
 			t := ctl.get(st.Thread)
-			if !wait(t.parked, 5*time.Second) {
+			select {
+			case <-t.parked:
+			case <-t.done:
+				// the thread finished without passing the point (its call took another path): not an error of the schedule -
+				// the remaining steps run and the outcome is judged as usual
+				results = append(results, map[string]string{"step": strconv.Itoa(i), "thread": st.Thread, "result": "not-parked:" + st.Point})
+			case <-time.After(5 * time.Second):
 				results = append(results, map[string]string{"step": strconv.Itoa(i), "thread": st.Thread, "result": "await-timeout:" + st.Point})
 			}
 		case "release":
